@@ -1148,7 +1148,7 @@ func c04Run(c *mc.Ctx) {
 		expired := false
 		for it := int64(0); k < total; k, it = k+int64(c.NShards), it+1 {
 			idx := base + k
-			if it&0xFFFF == 0 && c.Expired() {
+			if c.Due(0xFFFF) {
 				expired = true
 				break
 			}
